@@ -237,8 +237,8 @@ func (s *seqCounters) add(seqNr uint32) {
 				nrToDrop++
 			}
 		}
-		if s._nrCounters == s.windowSize {
-			nrToDrop++
+		if nrToDrop == 0 && s._nrCounters == s.windowSize {
+			nrToDrop = 1 // Full window and nothing outdated: make room for the new number
 		}
 		if nrToDrop > 0 {
 			copy(s.counters, s.counters[nrToDrop:])
